@@ -97,12 +97,12 @@ def gen_unit(rng, le, strtab, lstrtab, ver=None, fmt=None, asz=None, nops=None, 
                 entries.append(e)
             return out, fmtspec, entries
         dk = [1] + ([2] if False else [])
-        db, u.dir_format, u.directories = fmt_entries([1], rng.choice([1, 2, 4]), False)
+        db, u.dir_format, u.directories = fmt_entries([1], rng.choice([1, 2, 4] * 6 + [127, 128, 200]), False)     # counts are ULEB128: both sides of 128
         fk = [1] + rng.sample([2, 3, 4, 5], rng.randint(0, 4))
         rng.shuffle(fk)
         if 1 not in fk:
             fk.insert(0, 1)
-        fb, u.file_format, u.file_names = fmt_entries(fk, rng.choice([0, 1, 2, 6]), True)
+        fb, u.file_format, u.file_names = fmt_entries(fk, rng.choice([0, 1, 2, 6] * 5 + [127, 128, 300]), True)
         body += db + fb
     # ---- program
     prog = bytearray()
